@@ -177,12 +177,14 @@ def mask_table(ix, key):
     src = set()
     for bi, t in b.calls():
         if callee_is(t, "*BitAnd<u64>>::bitand", "*ops::BitAnd>::bitand"):
-            m = ceval(sym.operand(t["args"][1]))
-            cons = C.constraints_for(ix, b, sym, bi)
-            kinds = [next(iter(c[1])) for c in cons if len(c[1]) == 1 and next(iter(c[1])) in c04.KIND_FIELD]
-            if kinds and m is not None:
-                out[kinds[-1]] = m
-                src.add(expr_str(mir.strip_copies(sym.operand(t["args"][0])))[:80])
+            # the mask is a constant in the arm of `match kind`, or a variable looked up by `match kind` beforehand
+            for vb, mv in C.operand_cases(b, sym, bi, t["args"][1]):
+                m = ceval(mv)
+                cons = C.constraints_for(ix, b, sym, vb)
+                kinds = [next(iter(c[1])) for c in cons if len(c[1]) == 1 and next(iter(c[1])) in c04.KIND_FIELD]
+                if kinds and m is not None:
+                    out[kinds[-1]] = m
+                    src.add(expr_str(mir.strip_copies(sym.operand(t["args"][0])))[:80])
     return out, src, b
 
 
@@ -447,14 +449,15 @@ def rule_capture_src(ctx):
         rows = {}
         for bi, i, s in cb.stmts():
             if fields_of(s["lhs"])[-1:] == ("captured_piece",):
-                v = csym.rvalue(s["rv"])
-                cons = C.constraints_for(ix, cb, csym, bi)
-                ep = [next(iter(c[1])) for c in cons if "en_passant" in c[0] and len(c[1]) == 1]
-                rows[ep[-1] if ep else None] = expr_str(v[2][1]) if v[0] == "call" and v[1] == B_ + "get_piece" else expr_str(v)
+                for vb, v in C.value_cases(cb, csym, bi, s["rv"]):
+                    cons = C.constraints_for(ix, cb, csym, vb)
+                    ep = [next(iter(c[1])) for c in cons if "en_passant" in c[0] and len(c[1]) == 1]
+                    rows[ep[-1] if ep else None] = expr_str(v[2][1]) if v[0] == "call" and v[1] == B_ + "get_piece" else expr_str(v)
         if rows:
             n += 1
             ctx.functions.add(cb.key)
-            ok = rows.get(True) == "square::Square::Square{mv.start.rank, mv.dest.file}" and rows.get(False) == "mv.dest"
+            mv = cb.local_name(2)  # the closure's parameter, whatever it is called
+            ok = rows.get(True) == "square::Square::Square{%s.start.rank, %s.dest.file}" % (mv, mv) and rows.get(False) == "%s.dest" % mv
             ctx.check(ok, "get_all_moves:captured-piece-source", "captured_piece = get_piece((start.rank, dest.file)) for en passant, get_piece(dest) otherwise", cb.where(0),
                       bad_what="captured_piece is looked up at %s (en passant must look at (start.rank, dest.file), everything else at dest)" % rows)
     ctx.check(n == 1, "get_all_moves:one-annotation-closure", "one closure annotates captures", b.where(0), bad_what="%d closures set captured_piece" % n)
